@@ -52,6 +52,10 @@ def run_scenario(chk, sc, cfgseed, ndims=3, payload="wild", flavour="sched", wor
     import random
     rng = random.Random(cfgseed)
     cfg = gamma.Config.draw(rng, ndims=ndims, payload=payload)
+    # concrete field names (prefix pairs, parentheses, blanks ...): the scenario's names are abstract
+    nm = gamma.names_map(cfgseed, list(sc["fields"]))
+    ren = lambda names: [n if n == "all" else nm[n] for n in names]
+    sc = dict(sc, fields=ren(sc["fields"]), vars=ren(sc["vars"]), expect=dict(sc["expect"], fields=ren(sc["expect"]["fields"])))
     ap = compare.ap_from_scenario("A", sc["fields"], sc["levels"], ndims=ndims)
     d = chk.tmp()
     os.makedirs(d)
